@@ -691,6 +691,8 @@ def in_domain_table(op, xs, par, k):
         return 0.05 < a < 30
     if op == "Pow":
         y = xs[1]
+        if a == 0:
+            return 2 <= y <= 4
         return a > 1e-3 and abs(y) <= 4 and abs(y * math.log(a)) < 30
     if op == "LogAdd":
         return abs(a) < 50 and abs(xs[1]) < 50
@@ -710,7 +712,7 @@ DOMAIN_TABLE = {
     "Sinh Cosh": "|x| < 15", "Sin Cos": "|x| < 50", "Tan": "|x| < 50, |cos x| > 0.05", "Tanh": "|x| < 30", "Log1pExp Logistic Sigmoid": "|x| < 40",
     "Erf Erfc": "|x| < 5", "LogErfc": "-4 < x < 25", "Gamma": "0.1 < x < 20 or -6 < x < 0 with distance > 0.05 from the poles",
     "Lgamma": "0.1 < x < 100 or -6 < x < 0 (off the poles)", "Mlgamma": "(k-1)/2 + 0.1 < x < 100, k = 1..4", "GammaP": "0.01 < x < 50, a in {0.3,0.5,1,2.5,4,7.25,12}",
-    "BesselI LogBesselI": "0.05 < x < 30, v in {0,0.5,1,1.5,2,3.25}", "Pow": "x > 1e-3, |y| <= 4, |y log x| < 30 (negative base / base 0 with constant exponent: directed list)",
+    "BesselI LogBesselI": "0.05 < x < 30, v in {0,0.5,1,1.5,2,3.25}", "Pow": "x > 1e-3, |y| <= 4, |y log x| < 30, or x = 0 with a constant exponent in [2,4] (negative base / base 0 with constant exponent: directed list)",
     "LogAdd LogSub": "|a|,|b| < 50, LogSub: a > b + 1e-3", "SmoothMax": "|alpha x_i| < 30", "LogSmoothMax": "0.01 < x_i < 30, |alpha x_i| < 30",
     "Vnorm Mnorm": "norm >= 1e-3", "directed list": "branch boundaries and special operands outside these margins (Log1pExp thresholds +-1 ulp, Sigmoid/Abs at +-0, ties, -Inf in LogAdd/LogSub, Pow at base 0 / negative base, Tanh and LogErfc at large x)",
 }
@@ -812,7 +814,9 @@ def stmt_label(st, args, par, k):
     op = st["op"]
     xs = [float(a.v[0]) if a.v[0] not in (INF, -INF) else float(a.v[0]) for a in args[:2]]
     if op in REDUCTIONS:
-        return st.get("st", "dense")
+        # a coordinate exactly at zero is its own input class (shortcuts for zero entries lose derivative terms)
+        zero = any(a.v[0] == 0 for a in args)
+        return st.get("st", "dense") + (",coordinate exactly 0" if zero else "")
     lab = label(op, xs, par, k, {})
     if op == "Pow":
         lab += ",variable exponent" if not all_zero_derivs(args[1]) else ",constant exponent %s" % (
@@ -883,7 +887,7 @@ def judge_program(ev, out):
             elif r[0] == "n":
                 supp |= supports[r[1]]
         try:
-            lab = stmt_label(st, args, par, k)
+            lab = stmt_label(st, args + args2 if op in REDUCTIONS else args, par, k)
         except (ValueError, OverflowError, ZeroDivisionError):
             lab = "outside the domain"  # operands pushed out of the domain by a wrong value upstream
         cov["stmt:%s" % op] += 1
